@@ -22,10 +22,16 @@ try:
         run = "cargo test -q -p %s --test %s --offline%s" % (pkg, stem, feat)
     os.makedirs(os.path.dirname(os.path.join(wt, dest)), exist_ok=True)
     shutil.copy(os.path.join(seed, "demo.rs"), os.path.join(wt, dest))
+    manifest = os.path.join(wt, "crates", pkg, "Cargo.toml")
+    if "[[test]]" in demo and "/tests/" in dest:
+        # the crate sets autotests = false: the demonstration names the [[test]] entry it needs
+        with open(manifest, "a") as f:
+            f.write('\n[[test]]\nname = "%s"\nrequired-features = ["parse", "display"]\n' % stem)
     rc_clean, out_clean = sh(run, wt)
     rc_apply, out_apply = sh("git apply %s" % os.path.join(seed, "patch.diff"), wt)
     rc_demo, out_demo = sh(run, wt)
     os.remove(os.path.join(wt, dest))
+    sh("git checkout -- %s" % manifest, wt)
     rc_suite, out_suite = sh("cargo nextest run --workspace --no-fail-fast --tool-config-file pb:/w/lib/nextest.toml --profile pb --test-threads 8 --offline 2>&1 | tail -3", wt)
     passed = re.search(r"(\d+) tests run: (\d+) passed", out_suite)
     res = {"demo_cmd": run, "demo_on_clean_rc": rc_clean, "patch_applies": rc_apply == 0, "demo_with_patch_rc": rc_demo,
